@@ -4,7 +4,7 @@
 # it; its demo fails with it and passes without it), stores it under
 # /verif/seeded/<name>/ and runs the given checks against it in a scratch copy.
 set -u
-W=/tmp/seed_$1; NAME=$2; PROPS="${3:-}"
+W=${WT:-/tmp/seed_$1}; NAME=$2; PROPS="${3:-}"
 D=/verif/seeded/$NAME
 [ -d $W/SEEDED ] || { echo "no SEEDED dir in $W"; exit 1; }
 mkdir -p $D
